@@ -18,6 +18,13 @@ def run(ctx, R, tier):
     start_time_rule(F, R)
     from .c03 import waiting_cancel
     waiting_cancel(F, R)
+    # 'if the clock no longer exists': a dropped clock is really removed (the retired-resource ring is drained before every
+    # insert, so it never fills up), and what may refer to a clock is picked up before the clocks are (C08 / C07 rules)
+    from .c08 import drain, sweep
+    drain(F, R)
+    sweep(F, R)
+    from .c07 import pickup_order
+    pickup_order(F, R, rule='B.C05.pickup-order', which=('renderer',))
     from .c06 import ungated
     ungated(F, R, rule='B.C05.speed-ungated')
     torn(F, R)
